@@ -188,6 +188,32 @@ def record(lentil, tier, seed):
         sa = lentil.spider((9, 10), 2.0, angle=rng.choice((0, 45, 120)))
         if sa.min() < -1e-12 or sa.max() > 1 + 1e-12:
             leaf.append(('shape-range', {'kind': 'spider'}))
+    # a frame held in half or single precision (every value exactly representable) is the same frame: same centroid, same block sums
+    for _ in range(4 if q else 20):
+        shc = (rng.choice((120, 151, 200)), rng.choice((120, 151, 200)))
+        fr_ = lentil.circle(shc, rng.choice((40.3, 55.1)), shift=(rng.randint(-9, 9), rng.randint(-9, 9)), antialias=False) * rng.choice((1.0, 3.0))
+        c64 = lentil.centroid(fr_)
+        for fdt in (np.float16, np.float32):
+            c_n = lentil.centroid(fr_.astype(fdt))
+            if max(abs(c_n[0] - c64[0]), abs(c_n[1] - c64[1])) > 1e-6:
+                leaf.append(('centroid-depends-on-the-float-type-of-the-frame', {'dtype': np.dtype(fdt).name, 'shape': list(shc), 'float64': [float(c64[0]), float(c64[1])],
+                                                                                  'observed': [float(c_n[0]), float(c_n[1])]}))
+        blk = np.full((8, 12), 4096.0) + 4.0 * np.arange(96).reshape(8, 12)        # exactly representable in half precision
+        r64 = lentil.rebin(blk, 4)
+        for fdt in (np.float16, np.float32):
+            r_n = np.asarray(lentil.rebin(blk.astype(fdt), 4), dtype=float)
+            if not np.array_equal(blk.astype(fdt).astype(float), blk):
+                continue
+            if not np.allclose(r_n, r64, rtol=1e-9, atol=0):
+                leaf.append(('rebin-depends-on-the-float-type-of-the-frame', {'dtype': np.dtype(fdt).name, 'float64': r64.tolist(), 'observed': r_n.tolist()}))
+    # bounding slices of a mask given as nested lists (array_like, as for every other helper)
+    lst = [[0, 0, 0, 0, 0], [0, 0, 1, 1, 0], [0, 0, 1, 1, 0], [0, 0, 0, 0, 0]]
+    try:
+        ok_l = lentil.helper.boundary_slice(lst) == lentil.helper.boundary_slice(np.array(lst))
+    except Exception as ex:
+        ok_l = False
+    if not ok_l:
+        leaf.append(('boundary-slice-of-a-nested-list', {'mask': lst}))
     # a rotation is a number of degrees however it is typed (a python int, a numpy integer of any width as read from a header):
     # the drawing is the same, and a rectangle turned by 180 degrees is the rectangle
     for _ in range(6 if q else 30):
